@@ -127,7 +127,7 @@ def check_returns(body, name, E3):
             if s.k == 'assign' and s.place.is_local and s.place.l == 0:
                 defs.append((b, E.rvalue(s.rv), s.sp))
         if b.term.k == 'call' and b.term.dest.is_local and b.term.dest.l == 0:
-            defs.append((b, ('call', b.term.callee.path), b.term.sp))
+            defs.append((b, ('call', b.term.callee.path, ()), b.term.sp))
     E3.sites += len(defs)
     if name in MUST_RETURN_TRUE:
         bad = [(b, e, sp) for (b, e, sp) in defs if e != ('const', 1)]
